@@ -18,6 +18,8 @@ LEVEL = "exploration"
 MOD = "mc.props.c12"
 
 RADII = [0, -3, 1e-3, 1, 3, 10, 1e3]
+RADII_T = [0, -3, -0.5, 1e-6, 1e-3, 0.25, 1, 3, 7.5, 10, 100, 1e3, 1e6]
+ROTS_T = [0, 1e-3, 15, 30, 45, 60, 89.999, 90, 120, 135, 180, 225, 270, 315, 360, 400, 720.5, -30, -90, -359]
 ROTS = [0, 30, 45, 90, 135, 180, 270, 360, 400, -30]
 FLAGS = [(0, 0), (0, 1), (1, 0), (1, 1)]
 RADIAL_TOL = 3e-4
@@ -170,9 +172,10 @@ def boundary_cases():
 def cases(tier, seed):
     es = ends(tier, seed)
     starts = [(0.0, 0.0)] if tier == "quick" else [(0.0, 0.0), (17.5, -4.25), (-1e3, 2e3)]
-    rots = ROTS if tier == "thorough" else [0, 30, 90, 135, 400, -30]
+    rots = ROTS_T if tier == "thorough" else [0, 30, 90, 135, 400, -30]
+    radii = RADII_T if tier == "thorough" else RADII
     for st in starts:
-        for rx, ry in itertools.product(RADII, RADII):
+        for rx, ry in itertools.product(radii, radii):
             yield {"fam": "blk", "start": list(st), "rx": rx, "ry": ry, "rots": rots, "ends": [list(e) for e in es]}
     yield from boundary_cases()
 
@@ -185,7 +188,7 @@ def run(run):
         "(radius within 3e-4, polar angle monotone in sweep direction, total = selected extent), exact end point, line for zero radius, nothing "
         "for coincident end points. Non-trivial = proper arc or line case that the implementation returned segments for (distinct argument tuples)."
     )
-    run.cov["bounds"] = {"radii": RADII, "rotations": ROTS, "end_lattice": len(ends(run.tier, run.seed)), "seed_phase": run.seed % 4}
+    run.cov["bounds"] = {"radii": RADII if run.tier == "quick" else RADII_T, "rotations": ROTS if run.tier == "quick" else ROTS_T, "end_lattice": len(ends(run.tier, run.seed)), "seed_phase": run.seed % 4}
     run.assumptions = ["total-angle check skipped when the selected extent is within 1e-6 of 0 or 2*pi (ill-conditioned)"]
     run.floor_nt = 1000
     run.run_cases(MOD, cases(run.tier, run.seed), chunk=2)
